@@ -261,6 +261,53 @@ def run_backend(n, items, psi0):
     return None, np.asarray(out)
 
 
+def near_identity_case(seed):
+    """float family (not sent to the exact model): lists that contain one-qubit gates very close to - but different from -
+    the identity (small phase, weak damping, tiny rotation).  Fusion and the backend must treat them like any other
+    gate: the result has to agree with applying the items one after another to 1e-11 (relative), far below the size of
+    the gates' effect.  Returns None or (description, failure text)."""
+    import random
+    rng = random.Random(seed)
+    n = rng.randint(2, 4)
+    items, eff = [], 1.0
+    for _ in range(rng.randint(4, 9)):
+        if rng.random() < 0.5:
+            q, e = rng.randrange(n), rng.choice([8e-6, 3e-7, 1e-9])
+            M = rng.choice([np.diag([1, np.exp(1j * e)]), np.diag([1, 1 - e]),
+                            np.array([[np.cos(e), -np.sin(e)], [np.sin(e), np.cos(e)]], dtype=complex)])
+            items.append([np.array(M, dtype=complex), [q, -1] if rng.random() < 0.5 else [q]])
+            eff = min(eff, e)
+        elif rng.random() < 0.6 or n < 2:
+            items.append([np.array([[rng.randint(-2, 2) + 1j * rng.randint(-1, 1) for _ in range(2)] for _ in range(2)], dtype=complex),
+                          [rng.randrange(n)]])
+        else:
+            a, b = rng.sample(range(n), 2)
+            items.append([np.array([[rng.randint(-1, 2) + 1j * rng.randint(-1, 1) for _ in range(4)] for _ in range(4)], dtype=complex), [a, b]])
+    psi0 = [complex(rng.randint(-2, 2), rng.randint(-1, 1)) for _ in range(2 ** n)]
+    if not any(psi0):
+        psi0[0] = 1
+    desc = f"n={n}, {len(items)} items on {[list(map(int, q)) for _, q in items]} with near-identity gates (smallest effect {eff:g})"
+    want = ref_fold(n, items, np.array(psi0, dtype=complex)[:, None])[:, 0]
+    scale = max(1.0, float(np.max(np.abs(want))))
+    err, out = run_backend(n, items, psi0)
+    if err is not None:
+        return desc, f"BinaryBackend.statevector raised {err['err']}"
+    if out.shape != want.shape or float(np.max(np.abs(out - want))) > 1e-11 * scale:
+        return desc, (f"BinaryBackend.statevector differs from applying the items one after another by "
+                      f"{float(np.max(np.abs(out - want))) / scale:.3e} (relative); a gate close to the identity was not applied")
+    X = np.eye(2 ** n, dtype=complex)
+    ref = ref_fold(n, items, X)
+    sc = max(1.0, float(np.max(np.abs(ref))))
+    for lvl in LEVELS:
+        e, o = run_optimizer(lvl, n, items)
+        if e is not None:
+            return desc, f"Optimizer level {lvl} raised {e['err']}"
+        got = ref_fold(n, [[np.asarray(m, dtype=complex), list(q)] for m, q in o], X)
+        if float(np.max(np.abs(got - ref))) > 1e-11 * sc:
+            return desc, f"Optimizer level {lvl}: the returned list differs from its input as an operator by {float(np.max(np.abs(got - ref))) / sc:.3e} (relative)"
+    return None
+
+
 # ------------------------------------------------------------------ comparison with the model
 def items_match(out, model_items):
     """exact diff of the returned list against the model's list (matrices and qubit lists)"""
@@ -673,7 +720,20 @@ def main(ctx):
             call = (f"Optimizer({f['level']}, {describe(f['items'])}, range({f['n']})).optimize()" if op == "optimize"
                     else f"BinaryBackend({f['n']}).statevector({describe(f['items'])}, psi0)")
             ctx.violation(sig, replay_obj, f"{call}: {f['text']} [{shape2}]")
-    if not failures:
+    # float family: gates close to the identity
+    ni_bad = None
+    for k in range(60 if ctx.thorough else 12):
+        sd = ctx.seed * 65537 + k
+        r = near_identity_case(sd)
+        ctx.count()
+        if r is not None and ni_bad is None:
+            ni_bad = (sd, r)
+    cov["near_identity_cases"] = 60 if ctx.thorough else 12
+    if ni_bad:
+        sd, (desc, text) = ni_bad
+        ctx.violation({"op": "near-identity", "error": "gate-dropped"}, {"mode": "near-identity", "seed": sd, "case": desc, "failure": text},
+                      f"{desc}: {text}")
+    if not failures and not ni_bad:
         if mismatches:
             ctx.violation({"kind": "correspondence"},
                           {"first": mismatches[0], "count": len(mismatches),
@@ -747,6 +807,9 @@ def shrink(f):
 
 def replay(ctx, path):
     rp = json.load(open(path))["replay"]
+    if rp.get("mode") == "near-identity":
+        r = near_identity_case(rp["seed"])
+        print("near-identity case:", r or "holds"); return 1 if r else 0
     if "items" not in rp:
         print("replay names a broken obligation / correspondence, no input to re-run:", json.dumps(rp)[:600]); return 1
     n, level = rp["n"], rp["level"]
